@@ -27,6 +27,9 @@ Check(t) ==
     ELSE IF ~SameGrid(t.res2.y0, t.res2.u0) THEN "output-grid-differs-from-input-grid(second resolution)"
     ELSE IF ~(IF Sc(t).d = 1 THEN Close1(t.res2.y, Shift1(t.res2.y0, t.res2.s), Tol) ELSE Close2(t.res2.y, Shift2(t.res2.y0, t.res2.s), Tol))
          THEN "not-shift-equivariant(second resolution)"
+    \* a layer / FNO is a function of its input: the same field gives the same output before and after calls at other resolutions
+    ELSE IF "again" \in DOMAIN t /\ ~(IF Sc(t).d = 1 THEN Close1(t.again.y1, t.again.y0, Tol) ELSE Close2(t.again.y1, t.again.y0, Tol))
+         THEN "output-depends-on-earlier-calls-at-other-resolutions"
     ELSE IF "refine" \in DOMAIN t /\ \E i \in DOMAIN t.refine : ~RefineOK(t.refine[i].yc, t.refine[i].yf, t.refine[i].m, Tol) THEN "resolution-inconsistent"
     ELSE "ok"
 Init == tid \in 1..Len(Traces) /\ verdict = Check(Traces[tid]) /\ dev = ""
